@@ -392,13 +392,22 @@ def gen_feat(rnd, pool):
                                  'int("1", bas=2)', 'json.encode_indent({}, prefx="")', 'json.indent("{}", indnt="")', 'time.time(yeer=2000)',
                                  'time.time(year=2000, mont=1)', 'json.decode("1", defaultt=1)', '"{a}".format(b=1)', 'getattr("", "x", defalt=1)',
                                  'range(1, stpe=2)', 'time.parse_time("x", formt="y")', 'time.from_timestamp(1, nsecc=2)', 'dict([], **{"a": 1}).pop("b", defaul=1)']))
-    elif tail < 0.34:    # undefined name with near misses among locals, globals and predeclared names
+    elif tail < 0.36:    # undefined name with near misses among locals, globals and predeclared names
         base = rnd.choice(IDENT)
         cands = list({misspell(rnd, base) for _ in range(4)} - {base})
         rnd.shuffle(cands)
         for i, c in enumerate(cands[:3]):
             lines.insert(rnd.randrange(len(lines) + 1), "%s = %d" % (c, i))
-        if rnd.random() < 0.5:
+        k = rnd.random()
+        if k < 0.55:
+            # several function-local names at the same edit distance (the resolver collects them from Go maps)
+            loc = [base + x for x in rnd.sample(["_a", "_b", "_c", "_d", "x", "y", "z", "1", "2"], rnd.randint(2, 6))]
+            if rnd.random() < 0.5:
+                lines.append("def uses(%s):\n    %s = 0\n    return %s" % (", ".join(loc[:-1]), loc[-1], base))
+            else:
+                lines.append("def outer(%s):\n    def uses(%s):\n        return [%s for %s in []]\n    return uses" % (
+                    ", ".join(loc[:2]), ", ".join(loc[2:-1]), base, loc[-1]))
+        elif k < 0.75:
             lines.append("def uses():\n    %s = 1\n    return %s" % (cands[-1], base))
         else:
             lines.append("print(%s)" % base)
@@ -908,7 +917,7 @@ def run(ctx):
             ctx.notes.append("program %d rejected once (%s) but not on 3 re-executions" % (pid, bad[pid][:200]))
             raise vlib.MachineryError("divergence of program %d not reproducible: %s\n%s" % (pid, bad[pid][:300], describe(p, recmap[pid], bad[pid])))
         reported.add(sig)
-        ctx.violation(sig, describe(p, again[0], again[1]) + "\n--- program ---\n" + p["src"][:1500],
+        ctx.violation(sig, describe(p, again[0], again[1]) + "\n--- program (first 700 bytes) ---\n" + p["src"][:700],
                       {"header": header, "pool": [{"cls": x["cls"], "repr": x["repr"]} for x in pool], "prog": p})
 
     # evidence
